@@ -76,6 +76,16 @@ class C20(core.Prop):
                             t.pop('parent', None)
                             out.append({'mode': 'ring', 'g': t, 'marks': [[nd, kd] for nd, kd in zip(nodes, kind)],
                                         'first_order': k >= 2})
+        # two ring bonds between the same two nodes (four markers on two nodes), also inside a branch and late in the string
+        for n in (3, 4):
+            for base in gg.tree_shapes(n, max_nest=1)[:3]:
+                s = gg.no_double_close(base)
+                s.pop('parent', None)
+                for (i, j) in ((0, n - 1), (1, n - 1)):
+                    if i == j:
+                        continue
+                    out.append({'mode': 'ring', 'g': copy.deepcopy(s), 'marks': [[i, 'd'], [i, 'd'], [j, 'd'], [j, 'd']], 'first_order': False})
+                    out.append({'mode': 'ring', 'g': copy.deepcopy(s), 'marks': [[i, 'd'], [i, 'p'], [j, 'd'], [j, 'p']], 'first_order': False})
         # missing fragment
         gmax = 3 if tier == 'quick' else 4
         for n in range(1, gmax + 1):
